@@ -608,6 +608,7 @@ func (e *Engine) Explore(cfg HarnessConfig) *HarnessResult {
 	}
 	var mu sync.Mutex
 	labelsSeen := map[string]bool{}
+	dupRun := 0
 	cond := sync.NewCond(&mu)
 	queue := [][]Decision{nil}
 	active := 0
@@ -688,9 +689,17 @@ func (e *Engine) Explore(cfg HarnessConfig) *HarnessResult {
 					if !labelsSeen[v.Label] {
 						labelsSeen[v.Label] = true
 						res.Violations = append(res.Violations, v)
+						dupRun = 0
 					} else {
 						res.DupViolations++
+						dupRun++
 					}
+				}
+				if dupRun > 256 {
+					// hundreds of further paths fail only already-reported assertions: the
+					// harness is dominated by one (known or new) defect; stop here
+					res.Truncated = true
+					done = true
 				}
 				if len(res.Samples) < 5 && (pr.Kind == endOK) {
 					res.Samples = append(res.Samples, decString(pr.Decisions))
